@@ -1,6 +1,8 @@
 package main
 
 import (
+	"encoding/json"
+	"os"
 	"sort"
 	"sync"
 	"sync/atomic"
@@ -138,4 +140,162 @@ func stubConc(c *common, rng *hxlib.Rng, out *hxlib.Out) int {
 	return 0
 }
 
-func stubC12(c *common, rng *hxlib.Rng, out *hxlib.Out) int { return 0 }
+
+type c12Op struct {
+	K int `json:"k"` // 0 Lookup(b,t) 1 Apply(h,k) 2 Return(h,r) 3 When(h,v,r) 4 Cancel(h) 5 Reset(b) 6 Pkg(b,p) 7 VarLookup(b)
+	A int `json:"a"`
+	B int `json:"b"`
+	C int `json:"c"`
+}
+
+var c12Dummy int
+
+// stubC12: mocker-level histories on 4 targets, probes of every target with arguments 0,1,2 after every step.
+func stubC12(c *common, rng *hxlib.Rng, out *hxlib.Out) int {
+	n := 500
+	if c.tier == "thorough" {
+		n = 10000
+	}
+	if c.n > 0 {
+		n = c.n
+	}
+	type tgt struct {
+		mk   func(b *mocker.Builder) mocker.ExportedMocker
+		call func(a int) int
+		cb   func(k int) interface{}
+		orig int
+	}
+	tt := &fnzoo.T{K: 1}
+	tgts := []tgt{
+		{func(b *mocker.Builder) mocker.ExportedMocker { return b.Func(fnzoo.F1) }, fnzoo.F1, func(k int) interface{} { return func(a int) int { return 500 + k } }, -1000},
+		{func(b *mocker.Builder) mocker.ExportedMocker { return b.Func(fnzoo.G1) }, fnzoo.G1, func(k int) interface{} { return func(a int) int { return 500 + k } }, -1100},
+		{func(b *mocker.Builder) mocker.ExportedMocker { return b.Struct(&fnzoo.T{}).Method("M2") }, tt.M2, func(k int) interface{} { return func(_ *fnzoo.T, a int) int { return 500 + k } }, -7501},
+		{func(b *mocker.Builder) mocker.ExportedMocker { return b.Struct(&fnzoo.T{}).Method("M") }, tt.M, func(k int) interface{} { return func(_ *fnzoo.T, a int) int { return 500 + k } }, -7001},
+	}
+	pkgs := []string{"github.com/tencent/goom/test", "some/other/pkg", "x"}
+	// journal: every operation is written (unbuffered) BEFORE it is executed and probed, so that a fatal crash
+	// of the process (stack overflow, SIGSEGV) leaves the failing history on disk
+	journal, _ := os.Create(c.out + ".journal")
+	defer journal.Close()
+	for h := 0; h < n; h++ {
+		journal.WriteString("H\n")
+		nb := 1 + rng.Intn(2)
+		builders := make([]*mocker.Builder, nb)
+		for i := range builders {
+			builders[i] = mocker.Create()
+		}
+		owner := make([]int, len(tgts)) // each target is used through one builder only
+		for i := range owner {
+			owner[i] = rng.Intn(nb)
+		}
+		owner[3] = owner[2] // the two methods of one struct go through the same builder (shared struct-level cache)
+		var handles []mocker.ExportedMocker
+		var htgt []int
+		var hstale []bool
+		latest := make([]int, len(tgts))
+		for i := range latest {
+			latest[i] = -1
+		}
+		var ops []c12Op
+		var probes [][]interface{}
+		var pkgobs [][]int
+		var panics []string
+		steps := 4 + rng.Intn(20)
+		nextR := 100
+		for st := 0; st < steps; st++ {
+			var op c12Op
+			// handles that may be used: those whose mocker is still the current mocker of its target
+			// (a handle of a mocker that was cancelled AND superseded by a newer lookup is stale: outside the property)
+			var live []int
+			for hi := range handles {
+				if l := latest[htgt[hi]]; l >= 0 && handles[hi] == handles[l] {
+					live = append(live, hi)
+				}
+			}
+			switch k := rng.Intn(20); {
+			case len(live) == 0 || k < 4:
+				t := rng.Intn(len(tgts))
+				op = c12Op{K: 0, A: owner[t], B: t}
+			case k < 8:
+				op = c12Op{K: 1, A: live[rng.Intn(len(live))], B: rng.Intn(5)}
+			case k < 12:
+				op = c12Op{K: 2, A: live[rng.Intn(len(live))], B: nextR}
+				nextR++
+			case k < 15:
+				op = c12Op{K: 3, A: live[rng.Intn(len(live))], B: rng.Intn(3), C: nextR}
+				nextR++
+			case k < 17:
+				op = c12Op{K: 4, A: live[rng.Intn(len(live))]}
+			case k < 18:
+				op = c12Op{K: 5, A: rng.Intn(nb)}
+			case k < 19:
+				op = c12Op{K: 6, A: rng.Intn(nb), B: rng.Intn(len(pkgs))}
+			default:
+				op = c12Op{K: 7, A: rng.Intn(nb)}
+			}
+			jb, _ := json.Marshal(op)
+			journal.Write(append(jb, '\n'))
+			pan := ""
+			func() {
+				defer func() {
+					if e := recover(); e != nil {
+						pan = hxlib.PanicClass(e)
+					}
+				}()
+				switch op.K {
+				case 0:
+					m := tgts[op.B].mk(builders[op.A])
+					handles = append(handles, m)
+					htgt = append(htgt, op.B)
+					hstale = append(hstale, false)
+					latest[op.B] = len(handles) - 1
+				case 1:
+					handles[op.A].Apply(tgts[htgt[op.A]].cb(op.B))
+				case 2:
+					handles[op.A].Return(op.B)
+				case 3:
+					handles[op.A].When(op.B).Return(op.C)
+				case 4:
+					handles[op.A].Cancel()
+				case 5:
+					builders[op.A].Reset()
+				case 6:
+					builders[op.A].Pkg(pkgs[op.B])
+				case 7:
+					builders[op.A].Var(&c12Dummy)
+				}
+			}()
+			ops = append(ops, op)
+			panics = append(panics, pan)
+			var row []interface{}
+			for ti := range tgts {
+				for a := 0; a < 3; a++ {
+					t := &tgts[ti]
+					o := outcome(func() int { return t.call(a) })
+					if v, ok := o.(int); ok && v == t.orig-a {
+						o = "Original"
+					} else if ok && v >= 500 && v < 600 {
+						o = "CB" + string(rune('0'+v-500))
+					}
+					row = append(row, o)
+				}
+			}
+			probes = append(probes, row)
+			pk := make([]int, nb)
+			for i, b := range builders {
+				pk[i] = -1
+				for j, p := range pkgs {
+					if b.PkgName() == p {
+						pk[i] = j
+					}
+				}
+			}
+			pkgobs = append(pkgobs, pk)
+		}
+		for _, b := range builders {
+			b.Reset()
+		}
+		out.Put(map[string]interface{}{"kind": "hist", "nb": nb, "ops": ops, "probes": probes, "pkg": pkgobs, "panics": panics})
+	}
+	return 0
+}
